@@ -29,6 +29,7 @@ import (
 	"io"
 	"os"
 	"path/filepath"
+	"regexp"
 	"sort"
 	"strings"
 
@@ -131,6 +132,9 @@ func (g *wgen) stepExpr(j string, needs []string, matrix []string, steps map[str
 	add("contains(github.event.head_commit.message, 'skip') == false")
 	add("toJSON(github) != null")
 	add("hashFiles('**/go.sum')")
+	add("format('{0} {2}', github.ref)")
+	add("fromJSON('[1,')")
+	add("join(github.event.*.name, ',')")
 	// (no space after ':' — the expressions are written into plain YAML scalars)
 	add("fromJSON('{\"Foo\":{\"Bar\":1},\"baz\":[true,null]}').foo.bar")
 	add("fromJSON('{\"Foo\":1,\"b\":\"x\"}')['FOO']")
@@ -582,8 +586,13 @@ func lintFiles(root string, text [nFiles][]byte) ([]lintDiag, error) {
 	if err != nil {
 		return nil, err
 	}
+	// the project is given explicitly (project detection wants a .git next to .github/workflows)
+	proj, err := actionlint.NewProject(root)
+	if err != nil {
+		return nil, err
+	}
 	wf := filepath.Join(root, fileNames[fWorkflow])
-	errs, err := l.Lint(wf, text[fWorkflow], nil)
+	errs, err := l.Lint(wf, text[fWorkflow], proj)
 	if err != nil {
 		return nil, err
 	}
@@ -594,11 +603,25 @@ func lintFiles(root string, text [nFiles][]byte) ([]lintDiag, error) {
 	return out, nil
 }
 
+// quotedList: a run of two or more quoted items separated by ", " (the lists of names the
+// messages echo: "available inputs are ...").  The implementation sorts such lists by the spelling as
+// written, so the *order* of the echoed spellings follows their case; the items are sorted again after
+// lower-casing (the set of echoed names is compared, their order is not).
+var quotedList = regexp.MustCompile(`"[^"]*"(, "[^"]*")+`)
+
+func canonMsg(m string) string {
+	return quotedList.ReplaceAllStringFunc(asciiLower(m), func(l string) string {
+		items := strings.Split(l, ", ")
+		sort.Strings(items)
+		return strings.Join(items, ", ")
+	})
+}
+
 // canon: the observable of the property: multiset of (line, col, kind, lower-cased message)
 func canon(ds []lintDiag) []string {
 	out := make([]string, len(ds))
 	for i, d := range ds {
-		out[i] = fmt.Sprintf("%d:%d [%s] %s", d.Line, d.Col, d.Kind, asciiLower(d.Msg))
+		out[i] = fmt.Sprintf("%d:%d [%s] %s", d.Line, d.Col, d.Kind, canonMsg(d.Msg))
 	}
 	sort.Strings(out)
 	return out
@@ -750,7 +773,8 @@ func main() {
 	allContexts = append([]string{"jobs"}, hx.SortedKeys(actionlint.BuiltinGlobalVariableTypes)...)
 	allSpecial = hx.SortedKeys(actionlint.SpecialFunctionNames)
 
-	root := filepath.Join(*out, "proj")
+	root, err0 := filepath.Abs(filepath.Join(*out, "proj"))
+	hx.Must(err0)
 	for _, fn := range fileNames {
 		hx.Must(os.MkdirAll(filepath.Dir(filepath.Join(root, fn)), 0o755))
 	}
